@@ -29,7 +29,7 @@ import runner  # noqa: E402
 from pybbi import encode as E  # noqa: E402
 
 QUICK_FILES = 1500
-THOROUGH_FILES = 20000
+THOROUGH_FILES = 60000
 BATCH = 100  # files per query file / readq process
 READQ_TIMEOUT_S = 120
 NSHARDS = 16
